@@ -854,3 +854,34 @@ Proof.
   cbn [cs_cfg cs_loaders]. unfold add_loaders. rewrite (run_partial_docs _ ds2 _ H2).
   unfold effective. rewrite fold_left_app. reflexivity.
 Qed.
+
+(* --- process-wide options (app.Settings) -------------------------------------------------------- *)
+
+Lemma configured_run_after : forall v osargs ops globals,
+  configured_run v osargs ops globals = fold_left (apply_opt v) globals (configured v osargs ops).
+Proof. intros. unfold configured_run, configured. apply fold_left_app. Qed.
+
+Lemma fold_adding_keeps : forall gs cur,
+  Forall (fun o => is_adding o = true) gs ->
+  exists added, fold_left (apply_opt Repaired) gs cur = cur ++ added.
+Proof.
+  induction gs as [|g gs IH]; intros cur Hall.
+  - exists []. cbn. now rewrite app_nil_r.
+  - inversion Hall as [|? ? Hg Hgs]; subst. cbn [fold_left].
+    destruct (add_monotone cur g Hg) as [a Ha]. rewrite Ha.
+    destruct (IH (cur ++ a) Hgs) as [b Hb]. exists (a ++ b). now rewrite Hb, app_assoc.
+Qed.
+
+(* a process-wide SetConfigLoader replaces whatever the options of the Run call configured; only
+   process-wide options behind it still count *)
+Lemma configured_run_global_set : forall v osargs ops g1 ls g2,
+  configured_run v osargs ops (g1 ++ OSetConfigLoader ls :: g2) = fold_left (apply_opt v) g2 ls.
+Proof.
+  intros. rewrite configured_run_after, fold_left_app. cbn [fold_left apply_opt]. reflexivity.
+Qed.
+
+(* process-wide options that only add keep every loader the Run call configured, in place *)
+Lemma configured_run_global_adding : forall osargs ops globals,
+  Forall (fun o => is_adding o = true) globals ->
+  exists added, configured_run Repaired osargs ops globals = configured Repaired osargs ops ++ added.
+Proof. intros. rewrite configured_run_after. now apply fold_adding_keeps. Qed.
